@@ -21,7 +21,7 @@ PROFILE = {'invalid_rate': 0.05, 'opaque_rate': 0.0, 'unknown_unit_rate': 0.3, '
 
 
 def generate(rng, tier, index):
-    scn = sc.gen_scenario(rng, PROFILE)
+    scn = sc.gen_scenario(rng, sc.deepen(rng, PROFILE, tier))
     scn['property'] = ID
     return scn
 
